@@ -29,8 +29,6 @@ POSTCONDITION Post
 """
 PAR = int(os.environ.get("VERIF_PAR") or "6")
 API = {"method": "ojg.Converter.Convert", "func": "ojg.Convert", "alter": "alt.Alter", "decompose": "alt.Decompose"}
-PRE = {"rfc3339": "ojg.TimeRFC3339Converter", "nano": "ojg.TimeNanoConverter", "mongo": "ojg.MongoConverter",
-       "rfc3339+mongo": "ojg.TimeRFC3339Converter+MongoConverter", "none": "ojg.Converter.Convert"}
 
 
 def digits(d):
@@ -152,16 +150,18 @@ def judge(ctx, cases):
             t = json.loads(l)
             loc = b["loc"]
             locus = "%s:%s@%s%s:%s" % (c["conv"], loc[0], loc[1], loc[2], loc[3])
-            api = API[c["api"]] if c["conv"] in ("table", "none") else PRE[c["conv"]]
+            api = API[c["api"]]      # the predefined converters are Converter values: same entry point, the locus names the converter
             case = strip(c)
-            if b["kind"] == "inconsistent" and b["with"]:
-                # `with` is relative to its chunk: recover the partner from the same chunk
+            if b["kind"] == "inconsistent":
+                # `with` (the calls that narrowed the set of readings) is relative to its chunk
                 base = ((b["i"] - 1) // chunk) * chunk
-                other, _ = parts["conv"][base + b["with"] - 1]
-                case = {"multi": [strip(other), strip(c)]}
-            recs.append({"api": api, "kind": b["kind"], "locus": locus,
-                         "witness": {"value": show(c["v"]), "rules": show_rules(c.get("rules") or []), "converter": c["conv"],
-                                     "got": t["panic"] or show(t["out"]), "provided_value_after": show(t["after"])},
+                case = {"multi": [strip(parts["conv"][base + w - 1][0]) for w in b["with"]] + [strip(c)]}
+                locus = "%s:reading" % c["conv"]
+            wit = {"value": show(c["v"]), "rules": show_rules(c.get("rules") or []), "converter": c["conv"],
+                   "got": t["panic"] or show(t["out"]), "provided_value_after": show(t["after"])}
+            if "multi" in case:
+                wit["earlier_calls_that_fixed_the_reading"] = [{"value": show(o["v"]), "rules": show_rules(o.get("rules") or [])} for o in case["multi"][:-1]]
+            recs.append({"api": api, "kind": b["kind"], "locus": locus, "witness": wit,
                          "case": case, "detail": {"in": t["in"], "out": t["out"], "same": t["same"]}})
     return recs
 
